@@ -648,6 +648,11 @@ class vDatetime(TimeBase):
     def __init__(self, dt, params={}):
         self.dt = dt
         self.params = Parameters(params)
+        # the TZID parameter belongs to the value from the start,
+        # it is not a side effect of serialising it
+        tzid = tzid_from_dt(dt) if isinstance(dt, (datetime, time)) else None
+        if tzid and tzid != 'UTC':
+            self.params.update({'TZID': tzid})
 
     def to_ical(self):
         dt = self.dt
@@ -656,7 +661,8 @@ class vDatetime(TimeBase):
         s = f"{dt.year:04}{dt.month:02}{dt.day:02}T{dt.hour:02}{dt.minute:02}{dt.second:02}"
         if tzid == 'UTC':
             s += "Z"
-        elif tzid:
+        elif tzid and self.params.get('TZID') != tzid:
+            # dt was replaced after the value was created
             self.params.update({'TZID': tzid})
         return s.encode('utf-8')
 
